@@ -557,6 +557,12 @@ class ClientSession:
             resolved_proxy_headers = None
         else:
             resolved_proxy_headers = self._prepare_headers(proxy_headers)
+            # The session's default credentials are meant for the origin
+            # server, they must not be disclosed to the proxy.
+            explicit_proxy_headers = CIMultiDict(proxy_headers or ())
+            for name in (hdrs.AUTHORIZATION, hdrs.COOKIE):
+                if name not in explicit_proxy_headers:
+                    resolved_proxy_headers.popall(name, None)
             try:
                 proxy = URL(proxy)
             except ValueError as e:
